@@ -209,7 +209,10 @@ void parallel_for_dynamicImpl(
   auto worker = [start, end, &index, f, chunkSize, numChunks, exitAction](auto& s) {
     auto recurseInfo = detail::PerPoolPerThreadInfo::parForRecurse();
     while (true) {
-      auto cur = index.fetch_add(1, std::memory_order_relaxed);
+      // acq_rel: the draws at or beyond numChunks are exit tickets. The worker that draws the last one
+      // runs exitAction's granularity tail on states[0] and frees the shared index, so every other
+      // worker's body invocations (release) must happen before it (acquire), as in the multi-group path.
+      auto cur = index.fetch_add(1, std::memory_order_acq_rel);
       if (cur >= numChunks) {
         exitAction(cur);
         break;
